@@ -10,8 +10,7 @@ import collections
 from .. import stream, genrun
 from . import common
 
-FACTS = ["scan_shared_state", "file_codegen_src_grammar_mod_rs", "file_runtime_src_global_rs",
-         "file_runtime_src_peg_parser_rs", "file_runtime_src_trace_rs", "file_codegen_src_rule_rs"]
+FACTS = common.CODEGEN_FILES + ["scan_shared_state"]
 
 
 def check(out, ctx):
